@@ -163,6 +163,13 @@ func byName(decls map[ast.PredicateSym]ast.Decl) map[string]ast.Decl {
 
 // New creates a new analyzer based on declarations and extra predicates.
 func New(extraPredicates map[ast.PredicateSym]ast.Decl, decls []ast.Decl, boundsChecking BoundsCheckingMode) (*Analyzer, error) {
+	// Entries that a user declaration overrides are removed below. Work on a
+	// copy, the map belongs to the caller.
+	extraCopy := make(map[ast.PredicateSym]ast.Decl, len(extraPredicates))
+	for sym, decl := range extraPredicates {
+		extraCopy[sym] = decl
+	}
+	extraPredicates = extraCopy
 	extraByName := byName(extraPredicates)
 	declMap := make(map[ast.PredicateSym]ast.Decl)
 	for _, decl := range decls {
